@@ -231,7 +231,12 @@ func (e *Enc) binop(fr *Frame, x *ssa.BinOp, reach Term, pos string) Term {
 			if n, ok := isConstInt(x.Y); ok && n.IsInt64() && n.Int64() < int64(bits) {
 				return wrapMod(T(SInt, "(* %s %s)", a.S, pow2(int(n.Int64())).String()), t)
 			}
-			return T(SInt, "(ite (>= %s %d) 0 %s)", b.S, bits, wrapMod(T(SInt, "(* %s (pow2c %s))", a.S, b.S), t).S)
+			// case table: every branch is linear in a
+			chain := "0"
+			for i := bits - 1; i >= 0; i-- {
+				chain = fmt.Sprintf("(ite (= %s %d) %s %s)", b.S, i, wrapMod(T(SInt, "(* %s %s)", a.S, pow2(i).String()), t).S, chain)
+			}
+			return Term{chain, SInt}
 		case token.SHR:
 			bits, _, _ := intInfo(t)
 			if _, sgn, _ := intInfo(x.Y.Type()); sgn {
@@ -486,6 +491,12 @@ func (e *Enc) alloc(fr *Frame, x *ssa.Alloc, st *State, reach Term) {
 	ref := e.allocRef(st, reach)
 	fr.vals[x] = ref
 	switch u := el.Underlying().(type) {
+	case *types.Array:
+		es := e.sortOf(u.Elem())
+		mk := e.memKey(es)
+		zeroArr := Term{fmt.Sprintf("((as const %s) %s)", arraySort(SInt, es), e.zero(u.Elem()).S), arraySort(SInt, es)}
+		e.heapSet(st, mk, store(e.heapGet(st, mk), ref, zeroArr))
+		fr.addrs[x] = &Addr{kind: AArrMem, key: mk, ref: ref, sort: es, typ: el}
 	case *types.Struct:
 		for i := 0; i < u.NumFields(); i++ {
 			key, _, ft := e.fieldKey(el, i)
@@ -518,6 +529,10 @@ func (e *Enc) indexAddr(fr *Frame, x *ssa.IndexAddr, st *State, reach Term, pos 
 		arr := u.Elem().Underlying().(*types.Array)
 		e.safe(fr, "index", reach, T(SBool, "(and (<= 0 %s) (< %s %d))", idx.S, idx.S, arr.Len()), pos)
 		pa := e.addrOf(fr, x.X, reach, pos)
+		if pa.kind == AArrMem {
+			fr.addrs[x] = &Addr{kind: AElem, key: pa.key, ref: pa.ref, idx: idx, sort: pa.sort, typ: arr.Elem()}
+			return
+		}
 		fr.addrs[x] = &Addr{kind: AArrElem, parent: pa, idx: idx, sort: e.sortOf(arr.Elem()), typ: arr.Elem()}
 	default:
 		e.problem("%s: IndexAddr on %s", fr.fn.Name(), x.X.Type())
@@ -578,8 +593,21 @@ func (e *Enc) sliceOp(fr *Frame, x *ssa.Slice, st *State, reach Term, pos string
 		e.safe(fr, "slice", reach, T(SBool, "(and (<= 0 %s) (<= %s %s) (<= %s %s) (<= %s (s_cap %s)))", lo.S, lo.S, hi.S, hi.S, mx.S, mx.S, v.S), pos)
 		e.setVal(fr, x, T(SSlice, "(mk_slice (s_arr %s) (+ (s_off %s) %s) (- %s %s) (- %s %s))", v.S, v.S, lo.S, hi.S, lo.S, mx.S, lo.S))
 	case *types.Pointer: // pointer to array
-		e.problem("%s: slicing an array pointer", fr.fn.Name())
-		fr.vals[x] = e.freshTyped("slice", x.Type(), reach, st)
+		pa, ok := fr.addrs[x.X]
+		arr, isArr := x.X.Type().Underlying().(*types.Pointer).Elem().Underlying().(*types.Array)
+		if !ok || pa.kind != AArrMem || !isArr {
+			e.problem("%s: slicing an array pointer that is not a local array", fr.fn.Name())
+			fr.vals[x] = e.freshTyped("slice", x.Type(), reach, st)
+			return
+		}
+		n := intLit64(arr.Len())
+		if x.High != nil {
+			hi = e.val(fr, x.High)
+		} else {
+			hi = n
+		}
+		e.safe(fr, "slice", reach, T(SBool, "(and (<= 0 %s) (<= %s %s) (<= %s %s))", lo.S, lo.S, hi.S, hi.S, n.S), pos)
+		e.setVal(fr, x, T(SSlice, "(mk_slice %s %s (- %s %s) (- %s %s))", pa.ref.S, lo.S, hi.S, lo.S, n.S, lo.S))
 	default:
 		e.problem("%s: Slice on %s", fr.fn.Name(), x.X.Type())
 		fr.vals[x] = e.freshTyped("slice", x.Type(), reach, st)
